@@ -14,24 +14,27 @@ struct PropSpec {
     level: &'static str,
     quick_runs: u64,
     thorough_runs: u64,
+    /// verdicts blamed on these properties are violations of this one as well when they occur in
+    /// its profile (e.g. a wrong indexed read after a DML statement is also a wrong DML result)
+    also: &'static [&'static str],
 }
 
 const PROPS: &[PropSpec] = &[
-    PropSpec { id: "C01", engine: "dsim", profile: "crash", level: "fault_enumeration", quick_runs: 240, thorough_runs: 4000 },
-    PropSpec { id: "C02", engine: "dsim", profile: "crash", level: "fault_enumeration", quick_runs: 240, thorough_runs: 4000 },
-    PropSpec { id: "C04", engine: "dsim", profile: "life", level: "exploration", quick_runs: 1500, thorough_runs: 30000 },
-    PropSpec { id: "C05", engine: "dsim", profile: "dml", level: "exploration", quick_runs: 2000, thorough_runs: 40000 },
-    PropSpec { id: "C06", engine: "dsim", profile: "fail", level: "exploration", quick_runs: 2000, thorough_runs: 40000 },
-    PropSpec { id: "C07", engine: "dsim", profile: "txn", level: "exploration", quick_runs: 2000, thorough_runs: 40000 },
-    PropSpec { id: "C08", engine: "dsim", profile: "iso", level: "exploration", quick_runs: 1500, thorough_runs: 30000 },
-    PropSpec { id: "C09", engine: "dsim", profile: "cons", level: "exploration", quick_runs: 2000, thorough_runs: 40000 },
-    PropSpec { id: "C10", engine: "dsim", profile: "index", level: "exploration", quick_runs: 1500, thorough_runs: 30000 },
-    PropSpec { id: "C11", engine: "dsim", profile: "values", level: "exploration", quick_runs: 1500, thorough_runs: 30000 },
-    PropSpec { id: "C12", engine: "dsim", profile: "autoinc", level: "exploration", quick_runs: 2000, thorough_runs: 40000 },
-    PropSpec { id: "C21", engine: "dsim", profile: "ddl", level: "exploration", quick_runs: 1500, thorough_runs: 30000 },
-    PropSpec { id: "C40", engine: "dsim", profile: "crash", level: "fault_enumeration", quick_runs: 240, thorough_runs: 4000 },
-    PropSpec { id: "C42", engine: "dsim", profile: "config", level: "exploration", quick_runs: 800, thorough_runs: 16000 },
-    PropSpec { id: "C43", engine: "dsim", profile: "bulk", level: "exploration", quick_runs: 1200, thorough_runs: 20000 },
+    PropSpec { id: "C01", engine: "dsim", profile: "crash", level: "fault_enumeration", quick_runs: 240, thorough_runs: 4000, also: &[] },
+    PropSpec { id: "C02", engine: "dsim", profile: "crash", level: "fault_enumeration", quick_runs: 240, thorough_runs: 4000, also: &[] },
+    PropSpec { id: "C04", engine: "dsim", profile: "life", level: "exploration", quick_runs: 1500, thorough_runs: 30000, also: &[] },
+    PropSpec { id: "C05", engine: "dsim", profile: "dml", level: "exploration", quick_runs: 2000, thorough_runs: 40000, also: &["C06", "C09", "C10", "C11", "C12"] },
+    PropSpec { id: "C06", engine: "dsim", profile: "fail", level: "exploration", quick_runs: 2000, thorough_runs: 40000, also: &[] },
+    PropSpec { id: "C07", engine: "dsim", profile: "txn", level: "exploration", quick_runs: 2000, thorough_runs: 40000, also: &[] },
+    PropSpec { id: "C08", engine: "dsim", profile: "iso", level: "exploration", quick_runs: 1500, thorough_runs: 30000, also: &[] },
+    PropSpec { id: "C09", engine: "dsim", profile: "cons", level: "exploration", quick_runs: 2000, thorough_runs: 40000, also: &[] },
+    PropSpec { id: "C10", engine: "dsim", profile: "index", level: "exploration", quick_runs: 1500, thorough_runs: 30000, also: &[] },
+    PropSpec { id: "C11", engine: "dsim", profile: "values", level: "exploration", quick_runs: 1500, thorough_runs: 30000, also: &[] },
+    PropSpec { id: "C12", engine: "dsim", profile: "autoinc", level: "exploration", quick_runs: 2000, thorough_runs: 40000, also: &[] },
+    PropSpec { id: "C21", engine: "dsim", profile: "ddl", level: "exploration", quick_runs: 1500, thorough_runs: 30000, also: &[] },
+    PropSpec { id: "C40", engine: "dsim", profile: "crash", level: "fault_enumeration", quick_runs: 240, thorough_runs: 4000, also: &[] },
+    PropSpec { id: "C42", engine: "dsim", profile: "config", level: "exploration", quick_runs: 800, thorough_runs: 16000, also: &[] },
+    PropSpec { id: "C43", engine: "dsim", profile: "bulk", level: "exploration", quick_runs: 1200, thorough_runs: 20000, also: &[] },
 ];
 
 fn engine_by_name(name: &str) -> Option<Box<dyn Engine>> {
@@ -87,7 +90,7 @@ fn cmd_check(args: &[String]) -> i32 {
         run_timeout: Duration::from_millis(env_u64("VSIM_RUN_TIMEOUT_MS").unwrap_or(if tier == Tier::Thorough { 300_000 } else { 90_000 })),
         batch_budget: Duration::from_secs(if tier == Tier::Thorough { 1500 } else { 150 }),
         level: ps.level.to_string(),
-        also_owns: vec![],
+        also_owns: ps.also.iter().map(|x| x.to_string()).collect(),
         min_budget_runs: if tier == Tier::Thorough { 600 } else { 300 },
         min_budget_wall: Duration::from_secs(if tier == Tier::Thorough { 240 } else { 60 }),
         max_minimise: if tier == Tier::Thorough { 12 } else { 6 },
